@@ -35,16 +35,18 @@ const (
 )
 
 type TunnelScenario struct {
-	Kind  string  `json:"kind"` // tcp | sni | ws
-	Proxy int     `json:"proxy"`
-	CSeg  [][]int `json:"cseg"`
-	HL    int     `json:"hl"`
-	USeg  [][]int `json:"useg"`
-	CMode string  `json:"cmode"` // half | close | wait
-	Trig  int     `json:"trig"`  // tokens of the client's stream the upstream reads before replying; -1 = EOF
-	UMode string  `json:"umode"`
-	USlow int     `json:"uslow"` // 1: the upstream reads only after it has written everything
-	RT    int     `json:"rt"`    // 1: the listener has a read timeout and the reply comes after the client was silent for longer
+	Kind   string  `json:"kind"` // tcp | sni | ws
+	Proxy  int     `json:"proxy"`
+	CSeg   [][]int `json:"cseg"`
+	HL     int     `json:"hl"`
+	USeg   [][]int `json:"useg"`
+	CMode  string  `json:"cmode"` // half | close | wait
+	Trig   int     `json:"trig"`  // tokens of the client's stream the upstream reads before replying; -1 = EOF
+	UMode  string  `json:"umode"`
+	USlow  int     `json:"uslow"`  // 1: the upstream reads only after it has written everything
+	RT     int     `json:"rt"`     // 1: the listener has a read timeout and the reply comes after the client was silent for longer
+	Dead   int     `json:"dead"`   // 1: the service has two instances; the dial to the one picked first is refused
+	DeadPP int     `json:"deadpp"` // the pxyproto option of that instance (the one of the live instance is Proxy)
 }
 
 type TunnelCase struct {
@@ -188,6 +190,7 @@ type TunnelResult struct {
 	HelloEnd     int    // offset in ExpU just behind the ClientHello (sni), else 0
 	HdrLen       int
 	Dur          time.Duration
+	UConnected   bool // the proxy connected to the scripted upstream
 }
 
 // UEnd says how the upstream's connection ended: eof | reset | error | open.
@@ -279,6 +282,7 @@ type tunnelRun struct {
 	mu         sync.Mutex
 	conns      []net.Conn
 	quitOnce   sync.Once
+	uconn      atomic.Bool
 }
 
 func (r *tunnelRun) track(c net.Conn) {
@@ -548,6 +552,7 @@ func RunTunnel(env *TunnelEnv, c *TunnelCase, hello []byte) *TunnelResult {
 			return
 		}
 		r.track(conn)
+		r.uconn.Store(true)
 		r.upstream(conn)
 	}()
 	clDone := make(chan struct{})
@@ -594,7 +599,12 @@ func RunTunnel(env *TunnelEnv, c *TunnelCase, hello []byte) *TunnelResult {
 	}
 	timer := time.NewTimer(deadline)
 	defer timer.Stop()
-	for _, ch := range []chan struct{}{clDone, upDone} {
+	for i, ch := range []chan struct{}{clDone, upDone} {
+		if i == 1 && c.Sc.Dead == 1 && !r.uconn.Load() {
+			// the client's connection is over and the proxy has not come to the live instance: after the
+			// refused dial it gave the connection up (which the specification allows)
+			env.UpL.SetDeadline(time.Now())
+		}
 		select {
 		case <-ch:
 		case <-timer.C:
@@ -615,6 +625,7 @@ func RunTunnel(env *TunnelEnv, c *TunnelCase, hello []byte) *TunnelResult {
 	env.UpL.SetDeadline(time.Time{})
 	r.closeAll()
 	res.Dur = time.Since(t0)
+	res.UConnected = r.uconn.Load()
 	res.ExpU = sp.Cat(c.URecv)
 	res.ExpC = sp.Cat(c.CRecv)
 	res.HdrLen = len(sp.Hdr) * c.Sc.Proxy
@@ -672,11 +683,21 @@ func JudgeTunnel(c *TunnelCase, res *TunnelResult) (clause, msg string) {
 	if res.NotTunnelled != "" {
 		return "not-tunnelled", res.NotTunnelled
 	}
+	if c.Sc.Dead == 1 && !res.UConnected {
+		// refused dial, no other instance tried: nothing was tunnelled, nothing to judge
+		if res.Hang {
+			return "hang", "refused dial: the client's connection was not ended"
+		}
+		return "", ""
+	}
 	// safety part, valid at any moment: what arrived is a prefix of what was sent (+ PROXY line first)
 	if !bytes.HasPrefix(res.ExpU, res.URecv) {
 		i := firstDiff(res.ExpU, res.URecv)
 		cl := "in-order"
-		if c.Sc.Proxy == 1 && i < res.HdrLen {
+		if c.Sc.Dead == 1 && i == 0 {
+			// the instance that took the connection got (or missed) the PROXY line although its own option says otherwise
+			cl = "options-of-another-instance"
+		} else if c.Sc.Proxy == 1 && i < res.HdrLen {
 			cl = "proxy-line-first"
 		} else if h := res.HelloEnd; h > 0 && i >= h && len(res.URecv) > h {
 			// the ClientHello arrived intact and the stream continues further down: a hole right behind it
